@@ -584,6 +584,12 @@ pub fn check(case: &Case, res: &RunResult, status: &str) -> Vec<(String, String)
         let timed = ops.iter().any(|o| o.form == "recv_timeout0" && o.res.as_deref() == Some("err:timeout") && o.call < *ri && o.ret.unwrap_or(usize::MAX) > s.call);
         let dropped = ops.iter().any(|o| o.form == "recv_fut" && o.cancelled.is_some() && o.call < *ri);
         let shape = if timed { ":timed-recv-cancel-race" } else if dropped { ":dropped-recv-future-race" } else { "" };
+        // an abandoned run (deadlock: no teardown) may leave a manual-poll recv future that was Pending when the
+        // sender handed the value over and that the program never polled again: the value sits in that future,
+        // which is a receive in progress, not a lost value
+        if !complete && ops.iter().any(|o| (o.form == "recv_fut" || o.form == "recv_batch_fut") && o.polled_pending && o.ret.is_none() && o.cancelled.is_none() && o.call < *ri) {
+          continue;
+        }
         fire(
           format!("{}:{}:ok-value-never-received{}", s.sfl, s.form, shape),
           format!("{} of value {} returned ok (event {}) but no receive ever returned it", s.form, v, ri),
